@@ -39,6 +39,8 @@ type GenCfg struct {
 	// UsesExtras: uses statements carry refine, augment, when, if-feature, status;
 	// the top-level nodes of groupings then carry no when/status of their own
 	UsesExtras bool
+	// NoRefTypes: no identityref / leafref (types whose value space depends on other definitions or data)
+	NoRefTypes bool
 	// NoTopFeatures: no if-feature / when decoration at all (used by checks that need every node present)
 	NoDecorFeatures bool
 }
@@ -156,11 +158,14 @@ func (g *sgen) genType(allowEmpty bool) typeGen {
 	r := g.r
 	opts := []string{"string", "int", "boolean", "enumeration"}
 	if !g.cfg.SimpleTypes {
-		opts = append(opts, "decimal64", "union", "typedef", "identityref", "string", "int")
+		opts = append(opts, "decimal64", "union", "typedef", "string", "int")
+		if !g.cfg.NoRefTypes {
+			opts = append(opts, "identityref")
+		}
 		if allowEmpty {
 			opts = append(opts, "empty")
 		}
-		if !g.cfg.NoLeafref {
+		if !g.cfg.NoLeafref && !g.cfg.NoRefTypes {
 			opts = append(opts, "leafref")
 		}
 	}
